@@ -5,6 +5,7 @@ C11 — lock_all_entries yields each live entry of the snapshot exactly once.
 -/
 import Lockable.Proofs.Snap
 import Lockable.Proofs.Stream
+import Lockable.Proofs.Stream2
 import Lockable.Props.C01
 namespace Lockable
 
@@ -196,5 +197,39 @@ example :
     let a4 := (a3.exec (.drop 1)).1
     (a3.streams.map fun p => (p.2.items, p.2.ready)) = [([200], [])] ∧ hold a3.s 200 1 = false ∧
     (a4.streams.map fun p => (p.2.items, p.2.ready)) = [([200], [200])] ∧ hold a4.s 200 1 = true := by decide
+
+/-- **Nothing is ever added to a snapshot; what left it never comes back**: across any API call, every stream that exists afterwards
+existed before with at least the same unresolved items — unless this very call created it. So a key that appears only after
+`lock_all_entries` was called is never yielded, and an item that was yielded, dropped as valueless or cancelled is never polled again. -/
+theorem C11_items_only_shrink (kind : Kind) (cs : List Call) (c : Call) (sid : Nat) (its' : List Nat) :
+    let a := cs.foldl (fun a c => (a.exec c).1) (Api.init kind)
+    itemsAt (a.exec c).1 sid = some its' →
+    (∃ its, itemsAt a sid = some its ∧ ∀ w ∈ its', w ∈ its) ∨ (itemsAt a sid = none ∧ ∃ h0, c = .lockAll sid h0) := by
+  intro a h
+  exact exec_sub a c (C11_bookkeeping_exact kind cs) sid its' h
+
+/-- **Exactly once, valued only — for the stream as a whole**, after any history: when `poll_next` yields `(w, k)`, the acquisition
+`w` was an unresolved item of this stream before the call and is none afterwards (with `C11_items_only_shrink`: never again), it is
+now a guard for `k`, and `k` has a value. -/
+theorem C11_yield_was_item_once (kind : Kind) (cs : List Call) (sid w k : Nat) :
+    let a := cs.foldl (fun a c => (a.exec c).1) (Api.init kind)
+    let r := a.exec (.spoll sid)
+    r.2.res = .item w k →
+    (∃ its, itemsAt a sid = some its ∧ w ∈ its) ∧ (∃ its', itemsAt r.1 sid = some its' ∧ w ∉ its') ∧
+    (∃ hd v, r.1.s.hs w = some hd ∧ hd.st = .holding ∧ hd.key = k ∧ absVal r.1.s k = some v) := by
+  intro a r h
+  exact spollLoop_item sid _ a (C11_bookkeeping_exact kind cs) w k h
+
+/-- **The poll loop of the model is total**: for a stream that exists, `spoll` never gives the model's artificial `bad` (out of fuel
+or an unpollable item) — the fuel `ready.length + 1` suffices because dropping a valueless guard can wake no other item of the
+same stream (one item per key). -/
+theorem C11_spoll_never_out_of_fuel (kind : Kind) (cs : List Call) (sid : Nat) (st : StreamSt) :
+    let a := cs.foldl (fun a c => (a.exec c).1) (Api.init kind)
+    a.streams.lookup sid = some st → (a.exec (.spoll sid)).2.res ≠ .bad := by
+  intro a hl
+  obtain ⟨hi, hk⟩ := reach_execs cs _ (ainv_init kind) (kok_init kind)
+  have := spollLoop_not_bad sid (st.ready.length + 1) a hi hk st hl (Nat.lt_succ_self _)
+  show (a.spollLoop sid (match a.streams.lookup sid with | some st => st.ready.length + 1 | none => 1)).2 ≠ .bad
+  rw [hl]; exact this
 
 end Lockable
